@@ -18,7 +18,7 @@ tvars == <<t, l, fs>>
 
 TInit == /\ t \in 1..N /\ l = 1 /\ fs = Internal(Traces[t].fs)
 
-EState(e) == Shows(e.obs, fs) /\ ShowsN(e.nobs, fs) /\ ShowsL(e.obs.ldeep, e.lobs, fs) /\ UNCHANGED fs
+EState(e) == Shows(e.obs, fs) /\ ShowsT(e.obs, fs) /\ ShowsN(e.nobs, fs) /\ ShowsL(e.obs.ldeep, e.lobs, fs) /\ UNCHANGED fs
 
 (* result i of the call against item i *)
 ItemOK(r, it, exp, k) ==
@@ -53,7 +53,7 @@ NormalOpen(e) ==
   /\ LET x == WalkOpen(e)
          y == WalkWrite(e, x.fs) IN
        /\ x.ok /\ y.ok
-       /\ Shows(e.post, x.fs) /\ ShowsN(e.npost, x.fs) /\ ShowsL(e.post.ldeep, e.lpost, x.fs) /\ fs' = y.fs
+       /\ Shows(e.post, x.fs) /\ ShowsT(e.post, x.fs) /\ ShowsN(e.npost, x.fs) /\ ShowsL(e.post.ldeep, e.lpost, x.fs) /\ fs' = y.fs
        /\ (x.drift => TLCSet(N + t, 1))
 EOpen(e) ==
   /\ ~e.blocked                                     \* never blocks (FIFO, socket, device)
